@@ -137,9 +137,9 @@ Definition cell_ok (c : Z * Z * list Z * list Z) : bool :=
 
 def memo_shard(ctx, rd):
     rng = ctx.rng
-    n_single = 120 if ctx.tier == "quick" else 200
-    n_two = 60 if ctx.tier == "quick" else 100
-    n_cell = 40 if ctx.tier == "quick" else 60
+    n_single = 120 if ctx.tier == "quick" else 1000
+    n_two = 60 if ctx.tier == "quick" else 500
+    n_cell = 40 if ctx.tier == "quick" else 300
     singles, twos, cells = [], [], []
     py_bad = []
     for i in range(n_single):
@@ -300,7 +300,7 @@ def writers_tie(ctx, rd, snapshot_rules):
             self.written.append(fname)
 
     rng = ctx.rng
-    nworld = 40 if ctx.tier == "quick" else 120
+    nworld = 40 if ctx.tier == "quick" else 500
     worlds = []
     for wi in range(nworld):
         ops, obs, writers = [], [], []
@@ -712,7 +712,7 @@ def in_process(ctx, rd, spA, spB, describeA, describeB, ref):
     from cij.io.traditional.elast_dat import apply_symetry_on_elast_data
     import random
     rng = ctx.rng
-    norders = 3 if ctx.tier == "quick" else 10
+    norders = 3 if ctx.tier == "quick" else 30
 
     def hist(msg, inp, observed):
         ctx.failure("history-dependence", msg, input=inp, expected="results identical to a fresh calculation",
@@ -904,7 +904,7 @@ def in_process(ctx, rd, spA, spB, describeA, describeB, ref):
 def fill_measure(ctx, systems):
     import cij.util.fill as FILL
     rng = ctx.rng
-    nrep = 3 if ctx.tier == "quick" else 12
+    nrep = 3 if ctx.tier == "quick" else 30
     nb = 0
     first = {}
     tested = 0
@@ -1082,9 +1082,12 @@ def run(ctx):
     ctx.prove(rd / "Prop_C14.v", "Prop_C14.v (19 theorems: memo_refines_pure, instances_isolated, shear cell, "
               "fill_idempotent, registry_fresh, cwd_independence, merge/assemble order independence)", "theorem-file",
               extra_Q=[(rd, "CijGen")])
+    # the hypotheses of those theorems (acyclic dependency order, pure producers) checked on the real classes
+    from props import lazy_static
+    lazy_static.static_tie(ctx, rd)
 
     # -- model ties ------------------------------------------------------------------------------
-    defaults_history(ctx, 20 if quick else 100)
+    defaults_history(ctx, 20 if quick else 500)
     memo_shard(ctx, rd)
     systems = lookup_tie(ctx, rd)
 
